@@ -174,21 +174,57 @@ theorem shortest_sound (o s k : Nat) (c : Int) (h : isShortest o s k c = true) :
         have hf := upperOK_false_mono (decDen_pos _) (decDen_pos _) this hB
         rw [hf] at hu; cases hu
 
-/-- **"closest among the shortest", same-exponent part** (Number::toString note 2).  An accepted digit string is
-at least as close to the double as every other decimal `s' × 10^c` with the same exponent of the last digit.
-`_partial`: competitors with a different exponent (k-digit decimals of the decade below, a finer grid) are excluded
-by an executable test inside `isClosest` that is not covered by this theorem. -/
-theorem closest_sound_partial (o s k : Nat) (c : Int) (h : isClosest o s k c = true) :
-    ∀ s' : Nat, absDiff (decNum s c * scale) (magOrd o * decDen c)
-                  ≤ absDiff (decNum s' c * scale) (magOrd o * decDen c) := by
-  intro s'
-  simp only [isClosest, Bool.and_eq_true, decide_eq_true_eq] at h
-  have h1 := h.1
-  unfold decNum at *
-  have e : ∀ t : Nat, t * 10 ^ c.toNat * scale = t * (10 ^ c.toNat * scale) := fun t => Nat.mul_assoc _ _ _
-  rw [e] at h1 ⊢
-  rw [e]
-  exact grid_closest s s' _ _ h1
+/-- **"closest among the shortest", same-exponent part** (Number::toString note 2).  An accepted digit string
+`s` is at least as close to the double as EVERY other decimal `s' × 10^c` with the same exponent of the last digit
+that also parses back to the double (only those compete).
+`_partial`: k-digit competitors of the decade below (ten times finer grid; they exist only when `s = 10^(k−1)`) are
+handled by the last executable test of `isClosest`, which this theorem does not cover. -/
+theorem closest_sound_partial (o s k : Nat) (c : Int) (h : isClosest o s k c = true)
+    (hr : roundsTo s c o = true) :
+    (∀ s' : Nat, s < s' → roundsTo s' c o = true → distTo o s c ≤ distTo o s' c) ∧
+    (10 ^ (k - 1) < s → ∀ s' : Nat, s' < s → roundsTo s' c o = true → distTo o s c ≤ distTo o s' c) := by
+  simp only [isClosest, Bool.and_eq_true, Bool.or_eq_true, Bool.not_eq_true', decide_eq_true_eq] at h
+  obtain ⟨hup, hdn⟩ := h
+  have e : ∀ t : Nat, decNum t c * scale = t * (10 ^ c.toNat * scale) := fun t => by
+    unfold decNum; exact Nat.mul_assoc _ _ _
+  have hD : 0 < 10 ^ c.toNat * scale := Nat.mul_pos (Nat.pow_pos (by decide)) scale_pos
+  constructor
+  · intro s' hlt hr'
+    have hmid : roundsTo (s + 1) c o = true := roundsTo_between (Nat.le_succ s) hlt hr hr'
+    rcases hup with hf | hd
+    · rw [hmid] at hf; cases hf
+    · unfold distTo at hd ⊢
+      rw [e, e] at hd
+      rw [e, e]
+      have h1 : (s + 1) * (10 ^ c.toNat * scale) ≤ s' * (10 ^ c.toNat * scale) := Nat.mul_le_mul_right _ hlt
+      rw [Nat.add_mul, Nat.one_mul] at h1 hd
+      generalize s * (10 ^ c.toNat * scale) = p at hd h1 ⊢
+      generalize s' * (10 ^ c.toNat * scale) = p' at h1 ⊢
+      generalize 10 ^ c.toNat * scale = D at hd h1 hD
+      generalize magOrd o * decDen c = q at hd ⊢
+      unfold absDiff at *
+      omega
+  · intro hbig s' hlt hr'
+    rw [if_pos hbig] at hdn
+    simp only [Bool.or_eq_true, Bool.not_eq_true', decide_eq_true_eq] at hdn
+    have hmid : roundsTo (s - 1) c o = true := roundsTo_between (by omega) (Nat.sub_le s 1) hr' hr
+    rcases hdn with hf | hd
+    · rw [hmid] at hf; cases hf
+    · unfold distTo at hd ⊢
+      rw [e, e] at hd
+      rw [e, e]
+      have hs1 : s = (s - 1) + 1 := by omega
+      have h1 : s' * (10 ^ c.toNat * scale) ≤ (s - 1) * (10 ^ c.toNat * scale) := Nat.mul_le_mul_right _ (by omega)
+      have h2 : s * (10 ^ c.toNat * scale) = (s - 1) * (10 ^ c.toNat * scale) + (10 ^ c.toNat * scale) := by
+        conv => lhs; rw [hs1]
+        rw [Nat.add_mul, Nat.one_mul]
+      generalize s * (10 ^ c.toNat * scale) = p at hd h2 ⊢
+      generalize (s - 1) * (10 ^ c.toNat * scale) = p1 at hd h1 h2
+      generalize s' * (10 ^ c.toNat * scale) = p' at h1 ⊢
+      generalize 10 ^ c.toNat * scale = D at h2 hD
+      generalize magOrd o * decDen c = q at hd ⊢
+      unfold absDiff at *
+      omega
 
 /-- **toExponential / toPrecision digit selection, same-exponent part** (toExponential step 10.b, toPrecision
 step 10.a).  If the checker accepts `n` (with `fd+1` digits) and exponent `c = e − fd`, then `n` has exactly `fd+1`
